@@ -157,6 +157,8 @@ fn judge(c: &Cfg, faults: &[(u64, FaultKind)], r: &Run, p: &mut Partial, tag: &s
 
     // ---- every returned draw is a valid earlier state ----
     let mut prev_pos: Vec<f64> = START.to_vec();
+    let mut last_move: Option<usize> = None;
+    let mut last_traj_fault_draw: Option<usize> = None;
     let mut lo = n_init;
     for (d, dr) in r.res.draws.iter().enumerate() {
         let hi = dr.n_eval_after;
@@ -250,8 +252,32 @@ fn judge(c: &Cfg, faults: &[(u64, FaultKind)], r: &Run, p: &mut Partial, tag: &s
                 }
             }
         }
+        // the statistics the adaptation is fed with stay numbers (a NaN acceptance statistic
+        // poisons the step-size recurrence for the rest of the run: "invalid draws afterwards")
+        for name in ["mean_tree_accept", "mean_tree_accept_sym", "step_size_bar"] {
+            if let Some(v) = f64_of(&dr.stats, name) {
+                if !v.is_finite() {
+                    viol("adaptation-statistic-not-finite", format!("draw {d}: {name} = {v}"), p);
+                }
+            }
+        }
+        if !mc_core::slice_bits_eq(&dr.pos, &prev_pos) {
+            last_move = Some(d);
+        }
+        if !traj_faults.is_empty() && last_traj_fault_draw.is_none() {
+            last_traj_fault_draw = Some(d);
+        }
         prev_pos = dr.pos.clone();
         lo = hi;
+    }
+    // a single misbehaving evaluation must not freeze the chain: if at least four draws follow the
+    // first faulted trajectory, one of them moves (the fault-free run of every configuration moves
+    // in every draw; a frozen chain returns the pre-fault position for ever)
+    if let Some(df) = last_traj_fault_draw {
+        let later = r.res.draws.len().saturating_sub(df + 1);
+        if later >= 4 && last_move.map(|m| m <= df).unwrap_or(true) {
+            viol("chain-frozen-after-fault", format!("trajectory fault in draw {df}; none of the {later} later draws moved"), p);
+        }
     }
 }
 
